@@ -54,6 +54,11 @@ pub fn verif_dir() -> std::path::PathBuf {
 
 fn main() {
     let args: Vec<String> = std::env::args().collect();
+    if args.len() >= 3 && args[1] == "worker" && args[2] == "c07" {
+        // child process mode of the determinism monitor (C07)
+        checks::c07::worker_main(&args[3..]);
+        return;
+    }
     if args.len() >= 2 && args[1] == "worker" {
         // child process mode used by the process monitor (C08)
         checks::c08::worker_main(&args[2..]);
